@@ -329,13 +329,15 @@ func TestC45(t *testing.T) {
 				yield(c)
 			}
 		}
-		if p := os.Getenv("VERIF_CASES_RULESPROXYMC"); p != "" {
-			cs, err := vt.ReadNDJSON(p)
-			if err != nil {
-				t.Fatal(err)
-			}
-			for _, c := range cs {
-				yield(c)
+		for _, k := range []string{"VERIF_CASES_RULESPROXYMC", "VERIF_CASES_RULESPROXYMC2"} {
+			if p := os.Getenv(k); p != "" {
+				cs, err := vt.ReadNDJSON(p)
+				if err != nil {
+					t.Fatal(err)
+				}
+				for _, c := range cs {
+					yield(c)
+				}
 			}
 		}
 		for i, n := 0, vt.Pick(1500, 15000); i < n; i++ {
